@@ -331,6 +331,9 @@ def {}():
                   constraint_objs[ (wr_blk, rd_blk) ].add( obj )
 
     top._dag.constraint_objs = constraint_objs
+    # The constraints along which a value flows from a writer to a reader.
+    # Only these can be resolved by evaluating a cycle until it settles.
+    top._dag.value_constraints = impl_constraints
     top._dag.all_constraints = { *U_U }
     for (x, y) in impl_constraints:
       if (y, x) not in U_U: # no conflicting expl
